@@ -1,7 +1,8 @@
 import Drand.Beacon.Sync
 import Drand.Driver.Store
 import Gen.Consts
-namespace Drand.Driver
+namespace Drand.Driver.SyncD
+open Drand.Driver.StoreD
 open Drand Drand.Store Drand.Chain Drand.Beacon.Sync
 
 /-! Symbolic beacons: the harness maps real signatures to these byte strings and back, so the model never sees BLS.
@@ -211,4 +212,4 @@ def syncStep (s : SyncSt) (f : List String) : SyncSt × String :=
     (s, match r.2 with | .filled => "filled" | .start => "start" | .ignore => "ignore")
   | _ => (s, "bad-op")
 
-end Drand.Driver
+end Drand.Driver.SyncD
